@@ -65,6 +65,11 @@ func (cl *Client) Request(method, url string) (string, error) {
 
 	body, err := io.ReadAll(response.Body)
 	if err != nil {
+		// A peer that stalls in the middle of its answer is as alive as one
+		// that does not answer in time.
+		if err, ok := err.(net.Error); ok && err.Timeout() {
+			return "", fmt.Errorf("request timeout: %w", ErrTimeout)
+		}
 		return "", fmt.Errorf("read body failed: %w", err)
 	}
 
